@@ -307,5 +307,5 @@ def check(ctx):
     _check_own(ctx)
     from .engine import import_rules
     # clause 2: the slot is sized from the estimate and honoured by both record writers
-    import_rules(ctx, "c06", {"writer-arms", "alloc", "large-pop-conservation", "delete-pushes-slot"})
+    import_rules(ctx, "c06", {"writer-arms", "alloc", "large-pop-conservation", "delete-pushes-slot", "push-pop-inverse", "free-slot-field-position"})
     import_rules(ctx, "c18", {"full-extent"})
